@@ -23,11 +23,11 @@ M = [
     ("C01-lambda-returns-bottom", "C01", "vyxal/transpile.py", 'indent_str("res = [pop(stack, 1, ctx)]", indent + 2)', 'indent_str("res = [stack[0]] if stack else [pop(stack, 1, ctx)]", indent + 2)'),
     ("C01-else-if-skips-condition-pop", "C01", "vyxal/transpile.py", 'res += indent_str("condition = pop(stack, 1, ctx=ctx)", new_indent)', 'res += indent_str("condition = pop(stack, 1, ctx=ctx)" if i < 3 else "pass", new_indent)'),
     ("C02-empty-body-no-pass", "C02", "vyxal/transpile.py", '    if not program:\n        return helpers.indent_str("pass", indent)', '    if not program:\n        return ""'),
-    ("C02-list-item-return-indent", "C02", "vyxal/transpile.py", 'indent_str("return pop(stack, 1, ctx=ctx)", indent + 1)\n                + indent_str("f = list_item(stack, ctx)", indent)', 'indent_str("return pop(stack, 1, ctx=ctx)", indent + 1)\n                + indent_str("f = list_item(stack, ctx)", indent + (1 if indent > 2 else 0))'),
+    ("C02-list-item-guard-indent-when-deep", "C02", "vyxal/transpile.py", 'indent_str("if len(stack) == 0: return", indent + 1)', 'indent_str("if len(stack) == 0: return", indent + (2 if indent > 2 else 1))'),
     ("C03-opener-check-ignores-kind", "C03", "vyxal/parse.py", 'if (\n            token.name == lexer.TokenType.GENERAL\n            and token.value\n            and token.value in OPENING_CHARACTERS\n        ):', 'if (\n            token.value\n            and token.value in OPENING_CHARACTERS\n        ):'),
     ("C03-comment-ends-at-semicolon", "C03", "vyxal/lexer.py", 'while source and source[0] != "\\n":\n                source.popleft()', 'while source and source[0] not in "\\n;":\n                source.popleft()'),
     ("C04-unterminated-string-dropped-when-empty", "C04", "vyxal/lexer.py", '            tokens.append(Token(token_type, contextual_token_value))\n            if source:\n                source.popleft()', '            if source or contextual_token_value:\n                tokens.append(Token(token_type, contextual_token_value))\n            if source:\n                source.popleft()'),
-    ("C04-lambda-needs-closer-for-arity", "C04", "vyxal/parse.py", '                if len(branches) == 1:\n                    # that is, there is only a body - no arity', '                if len(branches) == 1 or (not tokens and not branches[-1]):\n                    # that is, there is only a body - no arity'),
+    ("C04-empty-last-branch-dropped-at-end-of-input", "C04", "vyxal/parse.py", "        else:\n            branches[-1].append(token)\n\n    return branches", "        else:\n            branches[-1].append(token)\n\n    if bracket_stack and len(branches) > 1 and not branches[-1]:\n        branches.pop()\n    return branches"),
     ("C05-no-leading-zero-rule", "C05", "vyxal/lexer.py", 'if head == "0" and not (source and source[0] in "°."):', 'if head == "0" and not (source and source[0] in "°.0123456789"):'),
     ("C05-decimal-through-float", "C05", "vyxal/transpile.py", "f'stack.append(sympy.Rational(\"{token.value}\"))', indent", "f'stack.append(sympy.Rational(str(float(\"{token.value}\"))))', indent"),
     ("C06-quotify-no-backslash-escape", "C06", "vyxal/elements.py", 'lhs.replace("\\\\", "\\\\\\\\").replace("`", "\\\\`")', 'lhs.replace("`", "\\\\`")'),
@@ -37,7 +37,7 @@ M = [
     ("C08-vectorise-swaps-list-scalar", "C08", "vyxal/elements.py", "            (list, SCALAR_TYPE): lambda: (\n                safe_apply(function, x, rhs, ctx=ctx) for x in lhs\n            ),\n            (list, list): lambda: (\n                safe_apply(function, x, y, ctx=ctx)\n                for x, y in vy_zip(lhs, rhs, ctx=ctx)", "            (list, SCALAR_TYPE): lambda: (\n                safe_apply(function, rhs, x, ctx=ctx) for x in lhs\n            ),\n            (list, list): lambda: (\n                safe_apply(function, x, y, ctx=ctx)\n                for x, y in vy_zip(lhs, rhs, ctx=ctx)"),
     ("C08-zip-fill-is-one", "C08", "vyxal/elements.py", "                except StopIteration:\n                    right_item = 0", "                except StopIteration:\n                    right_item = 1"),
     ("C09-swap-duplicates-lhs", "C09", "vyxal/elements.py", '"rhs, lhs = pop(stack, 2, ctx); stack.append(rhs); "\n        "stack.append(lhs)"', '"rhs, lhs = pop(stack, 2, ctx); stack.append(rhs); "\n        "stack.append(lhs); stack[0:1] = stack[0:1] if len(stack) < 5 else [lhs]"'),
-    ("C09-dup-peeks-below", "C09", "vyxal/elements.py", '"top = pop(stack, 1, ctx); stack.append(deep_copy(top)); "\n        "stack.append(top)",\n        1,', '"top = pop(stack, 1, ctx); stack[-1:] = [deep_copy(top)] if stack and stack[-1] == top else stack[-1:]; stack.append(deep_copy(top)); "\n        "stack.append(top)",\n        1,'),
+    ("C09-triplicate-eats-one-more-on-deep-stacks", "C09", "vyxal/elements.py", '"top = pop(stack, 1, ctx); stack.append(top);"\n        "stack.append(deep_copy(top)); stack.append(deep_copy(top));"', '"top = pop(stack, 1, ctx); stack[-1:] = [] if len(stack) > 3 else stack[-1:]; stack.append(top);"\n        "stack.append(deep_copy(top)); stack.append(deep_copy(top));"'),
     ("C10-deep-copy-is-identity-for-lists", "C10", "vyxal/helpers.py", "    if type(value) not in (list, LazyList):\n        return value", "    if type(value) is not LazyList:\n        return value"),
     ("C10-reverse-in-place", "C10", "vyxal/elements.py", "        list: lambda: lhs[::-1],\n        LazyList: lambda: lhs.reversed(),", "        list: lambda: (lhs.reverse(), lhs)[1],\n        LazyList: lambda: lhs.reversed(),"),
     ("C11-no-wraparound", "C11", "vyxal/helpers.py", "ret = ctx.inputs[-1][0][ctx.inputs[-1][1] % len(ctx.inputs[-1][0])]", "ret = ctx.inputs[-1][0][min(ctx.inputs[-1][1], len(ctx.inputs[-1][0]) - 1)]"),
